@@ -52,13 +52,14 @@ func (tmgc *TCPMuxGroupCtl) Listen(
 	multiplexer, group, groupKey string,
 	routeConfig vhost.RouteConfig,
 ) (l net.Listener, err error) {
+	// see TCPGroupCtl.Listen: lookup and join under one lock
 	tmgc.mu.Lock()
+	defer tmgc.mu.Unlock()
 	tcpMuxGroup, ok := tmgc.groups[group]
 	if !ok {
 		tcpMuxGroup = NewTCPMuxGroup(tmgc)
 		tmgc.groups[group] = tcpMuxGroup
 	}
-	tmgc.mu.Unlock()
 	verifhook.At("tcpmuxgroup.listen.lookedup", group, routeConfig.Domain)
 
 	switch v1.TCPMultiplexerType(multiplexer) {
@@ -172,6 +173,8 @@ func (tmg *TCPMuxGroup) Accept() <-chan net.Conn {
 
 // CloseListener remove the TCPMuxGroupListener from the TCPMuxGroup
 func (tmg *TCPMuxGroup) CloseListener(ln *TCPMuxGroupListener) {
+	tmg.ctl.mu.Lock()
+	defer tmg.ctl.mu.Unlock()
 	tmg.mu.Lock()
 	defer tmg.mu.Unlock()
 	for i, tmpLn := range tmg.lns {
@@ -183,7 +186,7 @@ func (tmg *TCPMuxGroup) CloseListener(ln *TCPMuxGroupListener) {
 	if len(tmg.lns) == 0 {
 		close(tmg.acceptCh)
 		tmg.tcpMuxLn.Close()
-		tmg.ctl.RemoveGroup(tmg.group)
+		delete(tmg.ctl.groups, tmg.group)
 	}
 }
 
